@@ -522,6 +522,7 @@ func runC07(ctx Ctx) int {
 	run.Sample(lItems[len(lItems)/2].p)
 	run.Sample(aItems[len(aItems)/2].p)
 	finishCapped(run, c1 && c2 && c3, fmt.Sprintf("AuthnRequest: %d shapes (k<=%d over %d dims + full products of the %d signing, 7 lexical / wire-level and 6 HTTP-shape sub-space dims); LogoutRequest: %d (k<=3); AttributeQuery: %d (k<=3)", len(sItems), k, len(c07SSO.Dims), len(c07SubDims), len(lItems), len(aItems)))
+	runLongRuns(run, "C07")
 	return run.Finish()
 }
 
